@@ -401,7 +401,9 @@ Definition quote (t : text) : text := flat_map quote_char t.
 (* str.encode('utf-8') (same remark on lone surrogates) *)
 Definition encode_utf8 (t : text) : list N := flat_map utf8_char t.
 
-(* a documentable as the writer sees it.
+(* a documentable as the writer sees it.  A subject of the writer is given as an Obj without parent whose name is its
+   QUALIFIED name and whose `hidden` is `not isVisible` (so that an --html-subject below the roots is covered as long as
+   it has a page of its own: module or class).
    tag: 0 Module/Package, 1 Class, 2 Function with kind FUNCTION, 3 Function of another kind, 4 Attribute, 5 other
    hidden: privacyClass is HIDDEN *)
 Inductive obj : Type := Obj (name : text) (tag : N) (hidden : bool) (contents : list obj).
@@ -501,6 +503,47 @@ Definition generate (compress : list N -> list N)
            (project version : text) (root_names : list text) (subjects : list obj) : list N :=
   encode_utf8 (header project version) ++ compress (concat (map encode_utf8 (gen_lines root_names subjects))).
 
+(* ------------------------------------------------------------------ driver.make: which subjects *)
+(* make(system): the subjects handed to the HTML writer (writeIndividualFiles) and to the inventory writer
+   (SphinxInventoryWriter.generate), None when that writer is not run.
+       if options.makehtml:
+           options.makeintersphinx = True
+           subjects = ()
+           if options.htmlsubjects: subjects = [system.allobjects[fn] for fn in options.htmlsubjects]
+           else:
+               writer.writeSummaryPages(system)
+               if not options.htmlsummarypages: subjects = system.rootobjects
+           writer.writeIndividualFiles(subjects)
+       if options.makeintersphinx:
+           if not options.makehtml: subjects = system.rootobjects
+           sphinx_inventory.generate(subjects=subjects, ...)
+   S is whatever stands for an object; --html-subject names are taken as already looked up. *)
+Section Make.
+  Variable S : Type.
+  Record make_options := MkOpts {
+    o_makehtml : bool; o_makeintersphinx : bool; o_htmlsubjects : list S; o_summarypages : bool }.
+
+  Definition make_subjects (o : make_options) (roots : list S) : option (list S) * option (list S) :=
+    let '(html, subjects, makeintersphinx) :=
+      if o_makehtml o then
+        let subjects :=
+          match o_htmlsubjects o with
+          | _ :: _ => o_htmlsubjects o                         (* if options.htmlsubjects: *)
+          | [] => if o_summarypages o then [] else roots
+          end in
+        (Some subjects, subjects, true)
+      else (None, [], o_makeintersphinx o) in
+    let inventory :=
+      if makeintersphinx then Some (if o_makehtml o then subjects else roots) else None in
+    (html, inventory).
+End Make.
+Arguments MkOpts {S}.
+Arguments o_makehtml {S}.
+Arguments o_makeintersphinx {S}.
+Arguments o_htmlsubjects {S}.
+Arguments o_summarypages {S}.
+Arguments make_subjects {S}.
+
 (* ------------------------------------------------------------------ wire codec *)
 (* input  := ( mode ... )
    mode 0 : ( 0 which line )                         which: 0 current _parseInventoryLine, 1 pinned (unguarded)
@@ -518,6 +561,8 @@ Definition generate (compress : list N -> list N)
    mode 4 : ( 4 text ) -> py_int: () | ( sign |v| mod 1000000007 )
    mode 5 : ( 5 text ) -> splitlines
    mode 6 : ( 6 text ) -> quote
+   mode 7 : ( 7 makehtml makeintersphinx htmlsubjects summarypages roots )   objects are names
+            -> ( html inventory )   each () when that writer is not run, else ( ( name ... ) )
    exn codes: 0 ValueError, 1 IndexError, 2 OutOfFuel *)
 Definition exn_code (e : exn) : Z := match e with ValueError => 0 | IndexError => 1 | OutOfFuel => 2 end.
 
@@ -622,5 +667,10 @@ Definition run (s : sexp) : sexp :=
     end
   | 5%Z => L (map of_text (splitlines (to_text (nth_s 1 s))))
   | 6%Z => of_text (quote (to_text (nth_s 1 s)))
+  | 7%Z =>
+    let o := MkOpts (to_bool (nth_s 1 s)) (to_bool (nth_s 2 s)) (map to_text (to_list (nth_s 3 s)))
+                    (to_bool (nth_s 4 s)) in
+    let '(h, i) := make_subjects o (map to_text (to_list (nth_s 5 s))) in
+    L [of_option (of_list of_text) h; of_option (of_list of_text) i]
   | _ => bad_input
   end.
